@@ -121,6 +121,8 @@ def verify_function(qual, prop, program=None, reg=None, self_cls=None, tag=None,
             if not E.feasible(st):
                 continue
             fr.old = st
+            if "result" in env:
+                env["arg_result"] = env["result"]
             E.current_case = (st, dict(env), label)
             if c.decreases:
                 fr.entry_measure = E.spec_value(c.decreases, st, env, st).t
